@@ -127,6 +127,27 @@ def split_assumptions(log):
   return blocks
 
 
+def coqchk(prop_files, timeout=2400):
+  """Independent re-check of the compiled property files and everything they depend on (thorough tier).
+  Returns (ok, axioms, summary)."""
+  mods = ["LV." + f[:-2].replace("/", ".") for f in prop_files]
+  p = subprocess.run(["timeout", str(timeout), "coqchk", "-silent", "-o", "-Q", ".", "LV"] + mods, cwd=COQ, stdout=subprocess.PIPE, stderr=subprocess.STDOUT, text=True)
+  out = p.stdout
+  axioms, sect = [], None
+  flags = {}
+  for line in out.splitlines():
+    m = re.match(r"\* (.*?):\s*(.*)$", line.strip())
+    if m:
+      sect = m.group(1)
+      if m.group(2):
+        flags[sect] = m.group(2)
+      continue
+    if sect == "Axioms" and line.strip():
+      axioms.append(line.strip())
+  clean = all("<none>" in flags.get(k, "") for k in flags if k.startswith("Constants/Inductives relying") or k.startswith("Inductives whose positivity"))
+  return p.returncode == 0 and clean, axioms, out[-1500:]
+
+
 STDLIB_AXIOMS = {
   "ClassicalDedekindReals.sig_not_dec", "ClassicalDedekindReals.sig_forall_dec",
   "FunctionalExtensionality.functional_extensionality_dep", "Classical_Prop.classic",
